@@ -1034,6 +1034,21 @@ def extra_big_offsets(ctx, rec):
                 d["x"] = [v if v == gen_qc.NA else v + k for v in c["x"]]
                 steps.append(({"kind": "shiftv", "i": 0, "k": k}, d))
             rec.session(steps, CONCS[rep % len(CONCS)])
+    if "spike" in fns:
+        # dense series without missing values, thresholds of the size of the differences, both methods: at 2^27 a midpoint
+        # or a step held in single precision is off by several units
+        r = g.r
+        for rep in range(ctx.pick(40, 300)):
+            n = r.randint(5, 10)
+            c = gen_qc.mk("spike", x=[r.randint(-6, 6) for _ in range(n)],
+                          p={"st": [r.choice([1, 2, 3]), 2], "ft": r.choice([[], [r.choice([3, 5]), 1]]),
+                             "method": "average" if rep % 2 else "differential"})
+            steps = [({"kind": "base", "i": 0, "k": 0}, c)]
+            for k in (2 ** 27, 2 ** 27 + 5, -(2 ** 26) - 3):
+                d = json.loads(json.dumps(c))
+                d["x"] = [v + k for v in c["x"]]
+                steps.append(({"kind": "shiftv", "i": 0, "k": k}, d))
+            rec.session(steps, CONCS[rep % 2])
 
 
 def extra_purity(ctx, rec):
